@@ -71,22 +71,22 @@ theorem C01_roundtrip_lengthkey (W : String → Option Int) (its : List KItem) (
                 w : VALUE over PARAM-LENGTH-INFO-TYPE A_UINT32 with key n, value 5 in 16 bits (not what the encoder would derive: n must be given);
                 st : STRUCTURE { a : 8 bits; b : A_INT32 16 bits }  (a component; key-free by the syntactic criterion);
                 y : VALUE, 8 bits ] -/
-def exKeyObj : Obj := ⟨"k", none, some 4, none, true, 8, .uint32⟩
-def exKeyObjN : Obj := ⟨"n", none, none, none, true, 8, .uint32⟩
-def exUser : PLUser := { name := "d", bytePos := none, key := "k", bt := .bytefield, hl := true, v := .bytes [0xDE, 0xAD, 0xBE],
-                         raw := [0xDE, 0xAD, 0xBE] }
-def exObjUser : Obj := ⟨"w", none, none, none, true, 16, .uint32⟩
-def exStructKids : List Comp :=
+def lkExKeyObj : Obj := ⟨"k", none, some 4, none, true, 8, .uint32⟩
+def lkExKeyObjN : Obj := ⟨"n", none, none, none, true, 8, .uint32⟩
+def lkExUser : PLUser :=
+  { name := "d", bytePos := none, key := "k", bt := .bytefield, hl := true, v := .bytes [0xDE, 0xAD, 0xBE], raw := [0xDE, 0xAD, 0xBE] }
+def lkExObjUser : Obj := ⟨"w", none, none, none, true, 16, .uint32⟩
+def lkExStructKids : List Comp :=
   [Comp.ofObjValue ⟨"a", none, none, none, true, 8, .uint32⟩ (.int 7), Comp.ofObjValue ⟨"b", none, none, none, true, 16, .int32⟩ (.int 0x1234)]
-def exStruct : Comp := Comp.ofValue "st" none (DComp.struct exStructKids)
-def exKeyItems (supplied : Bool) : List KItem :=
+def lkExStruct : Comp := Comp.ofValue "st" none (DComp.struct lkExStructKids)
+def lkExKeyItems (supplied : Bool) : List KItem :=
   [.comp (Comp.ofObjConst ⟨"sid", none, none, none, true, 8, .uint32⟩ (.int 0x2E) false) [],
-   .key exKeyObj 24 supplied, .key exKeyObjN 16 true, .user exUser, .ouser exObjUser (.int 5) "n", .comp exStruct [],
+   .key lkExKeyObj 24 supplied, .key lkExKeyObjN 16 true, .user lkExUser, .ouser lkExObjUser (.int 5) "n", .comp lkExStruct [],
    .comp (Comp.ofObjValue ⟨"y", none, none, none, true, 8, .uint32⟩ (.int 0x77)) []]
-def exW : String → Option Int := fun n => if n = "k" then some 24 else if n = "n" then some 16 else none
+def lkExW : String → Option Int := fun n => if n = "k" then some 24 else if n = "n" then some 16 else none
 
 /-- the parameters: the keys are LENGTH-KEY parameters, the diag-coded types of `d` and `w` refer to them by name -/
-example : Comps.toParams (KItems.comps (exKeyItems false)) =
+example : Comps.toParams (KItems.comps (lkExKeyItems false)) =
     [.mk "sid" none none (.codedConst (.std .uint32 none true 8 none false) (.int 0x2E)),
      .mk "k" none (some 4) (.lengthKey (.simple (.std .uint32 none true 8 none false) .uint32 .identical)),
      .mk "n" none none (.lengthKey (.simple (.std .uint32 none true 8 none false) .uint32 .identical)),
@@ -97,170 +97,170 @@ example : Comps.toParams (KItems.comps (exKeyItems false)) =
         .mk "b" none none (.value (.simple (.std .int32 none true 16 none false) .int32 .identical) none)]) none),
      .mk "y" none none (.value (.simple (.std .uint32 none true 8 none false) .uint32 .identical) none)] := rfl
 /-- the supplied values: no entry for `sid` and none for the key `k` -/
-example : Comps.values (KItems.comps (exKeyItems false)) =
+example : Comps.values (KItems.comps (lkExKeyItems false)) =
     [("n", .atom (.int 16)), ("d", .atom (.bytes [0xDE, 0xAD, 0xBE])), ("w", .atom (.int 5)),
      ("st", .dict [("a", .atom (.int 7)), ("b", .atom (.int 0x1234))]), ("y", .atom (.int 0x77))] := rfl
 /-- … or `k` is specified, consistently -/
-example : Comps.values (KItems.comps (exKeyItems true)) =
+example : Comps.values (KItems.comps (lkExKeyItems true)) =
     [("k", .atom (.int 24)), ("n", .atom (.int 16)), ("d", .atom (.bytes [0xDE, 0xAD, 0xBE])), ("w", .atom (.int 5)),
      ("st", .dict [("a", .atom (.int 7)), ("b", .atom (.int 0x1234))]), ("y", .atom (.int 0x77))] := rfl
 /-- the decoded values: every parameter, the key `k` with the bit length of `d` -/
-example (b : Bool) : (Comps.pair (KItems.comps (exKeyItems b))).val =
+example (b : Bool) : (Comps.pair (KItems.comps (lkExKeyItems b))).val =
     [("sid", .atom (.int 0x2E)), ("k", .atom (.int 24)), ("n", .atom (.int 16)), ("d", .atom (.bytes [0xDE, 0xAD, 0xBE])),
      ("w", .atom (.int 5)), ("st", .dict [("a", .atom (.int 7)), ("b", .atom (.int 0x1234))]), ("y", .atom (.int 0x77))] := rfl
 /-- the PDU (no overlap warning): sid; 24 = 0x18 shifted by 4 bits into bytes 1-2; n = 16; the three bytes of `d`; `w` in 16 bits;
     the structure; `y` -/
-def exKeyPdu : Bytes := [0x2E, 0x01, 0x80, 0x10, 0xDE, 0xAD, 0xBE, 0x00, 0x05, 0x07, 0x12, 0x34, 0x77]
-example : (encodeMessage none (Comps.toParams (KItems.comps (exKeyItems false)))
-      (.dict (Comps.values (KItems.comps (exKeyItems false)))) none true).toOption = some (exKeyPdu, 0) := by decide +kernel
-example : (encodeMessage none (Comps.toParams (KItems.comps (exKeyItems true)))
-      (.dict (Comps.values (KItems.comps (exKeyItems true)))) none true).toOption = some (exKeyPdu, 0) := by decide +kernel
+def lkExKeyPdu : Bytes := [0x2E, 0x01, 0x80, 0x10, 0xDE, 0xAD, 0xBE, 0x00, 0x05, 0x07, 0x12, 0x34, 0x77]
+example : (encodeMessage none (Comps.toParams (KItems.comps (lkExKeyItems false)))
+      (.dict (Comps.values (KItems.comps (lkExKeyItems false)))) none true).toOption = some (lkExKeyPdu, 0) := by decide +kernel
+example : (encodeMessage none (Comps.toParams (KItems.comps (lkExKeyItems true)))
+      (.dict (Comps.values (KItems.comps (lkExKeyItems true)))) none true).toOption = some (lkExKeyPdu, 0) := by decide +kernel
 /-- … and what the model's decoder makes of it -/
-example : ((decodeMessage none (Comps.toParams (KItems.comps (exKeyItems false))) exKeyPdu true).toOption.map
-    fun r => (pvalEq r.1 (.dict (Comps.pair (KItems.comps (exKeyItems false))).val), r.2)) = some (true, 13) := by decide +kernel
+example : ((decodeMessage none (Comps.toParams (KItems.comps (lkExKeyItems false))) lkExKeyPdu true).toOption.map
+    fun r => (pvalEq r.1 (.dict (Comps.pair (KItems.comps (lkExKeyItems false))).val), r.2)) = some (true, 13) := by decide +kernel
 /-- a wrong key is rejected by the strict encoder (the object does not have that many bits) -/
-example : (encodeMessage none (Comps.toParams (KItems.comps (exKeyItems true)))
+example : (encodeMessage none (Comps.toParams (KItems.comps (lkExKeyItems true)))
       (.dict [("k", .atom (.int 16)), ("n", .atom (.int 16)), ("d", .atom (.bytes [0xDE, 0xAD, 0xBE])), ("w", .atom (.int 5)),
               ("st", .dict [("a", .atom (.int 7)), ("b", .atom (.int 0x1234))]), ("y", .atom (.int 0x77))]) none true).toOption
     = none := by decide +kernel
 
-theorem exStruct_ok : exStruct.Ok ∧ exStruct.EndOk ∧ exStruct.KeyFree := by
+theorem lkExStruct_ok : lkExStruct.Ok ∧ lkExStruct.EndOk ∧ lkExStruct.KeyFree := by
   have hoa : (⟨"a", none, none, none, true, 8, .uint32⟩ : Obj).ok := by simp [Obj.ok, Obj.encOk, Obj.sizeOk]
   have hra : (⟨"a", none, none, none, true, 8, .uint32⟩ : Obj).inRange (.int 7) := by simp [Obj.inRange]
   have hob : (⟨"b", none, none, none, true, 16, .int32⟩ : Obj).ok := by simp [Obj.ok, Obj.encOk, Obj.sizeOk, int32Known]
   have hrb : (⟨"b", none, none, none, true, 16, .int32⟩ : Obj).inRange (.int 0x1234) := by
     simp [Obj.inRange, int32InRange]
-  have hokAll : Comps.okAll exStructKids := ⟨Comp.ofObjValue_ok _ _ hoa hra, Comp.ofObjValue_ok _ _ hob hrb, trivial⟩
-  have hnames : Comps.namesOk exStructKids := by
-    simp [Comps.namesOk, exStructKids, Comp.name, Param.name, Comp.ofObjValue, Obj.toParam]
-  have hok : exStruct.Ok := Comp.ofValue_ok _ _ _ (DComp.struct_ok _ hokAll hnames ⟨rfl, trivial⟩)
+  have hokAll : Comps.okAll lkExStructKids := ⟨Comp.ofObjValue_ok _ _ hoa hra, Comp.ofObjValue_ok _ _ hob hrb, trivial⟩
+  have hnames : Comps.namesOk lkExStructKids := by
+    simp [Comps.namesOk, lkExStructKids, Comp.name, Param.name, Comp.ofObjValue, Obj.toParam]
+  have hok : lkExStruct.Ok := Comp.ofValue_ok _ _ _ (DComp.struct_ok _ hokAll hnames ⟨rfl, trivial⟩)
   refine ⟨hok, ?_, Comp.keyFree_of_noKeys _ hok (by decide +kernel)⟩
   exact Comp.ofValue_endOk _ _ _ (DComp.struct_endOk _ hokAll ⟨Comp.ofObjValue_endOk _ _, Comp.ofObjValue_endOk _ _, trivial⟩
     ⟨rfl, trivial⟩)
 
-theorem exKeyItems_ok (b : Bool) : ∀ it ∈ exKeyItems b, it.ok exW := by
+theorem lkExKeyItems_ok (b : Bool) : ∀ it ∈ lkExKeyItems b, it.ok lkExW := by
   intro it hit
-  simp only [exKeyItems, List.mem_cons, List.mem_nil_iff, or_false] at hit
+  simp only [lkExKeyItems, List.mem_cons, List.mem_nil_iff, or_false] at hit
   rcases hit with rfl | rfl | rfl | rfl | rfl | rfl | rfl
   · have ho : (⟨"sid", none, none, none, true, 8, .uint32⟩ : Obj).ok := by simp [Obj.ok, Obj.encOk, Obj.sizeOk]
     have hr : (⟨"sid", none, none, none, true, 8, .uint32⟩ : Obj).inRange (.int 0x2E) := by simp [Obj.inRange]
     exact Comp.KOk.ofKeyFree _ _ (Comp.ofObjConst_ok _ _ _ ho hr) (Comp.ofObjConst_endOk _ _ _) (Comp.ofObjConst_keyFree _ _ _ ho hr)
-  · exact ⟨⟨rfl, by simp [exKeyObj, Obj.ok, Obj.encOk, Obj.sizeOk]⟩, by simp [exKeyObj, Obj.inRange]⟩
-  · exact ⟨⟨rfl, by simp [exKeyObjN, Obj.ok, Obj.encOk, Obj.sizeOk]⟩, by simp [exKeyObjN, Obj.inRange]⟩
+  · exact ⟨⟨rfl, by simp [lkExKeyObj, Obj.ok, Obj.encOk, Obj.sizeOk]⟩, by simp [lkExKeyObj, Obj.inRange]⟩
+  · exact ⟨⟨rfl, by simp [lkExKeyObjN, Obj.ok, Obj.encOk, Obj.sizeOk]⟩, by simp [lkExKeyObjN, Obj.inRange]⟩
   · refine ⟨⟨allBytes_of_all _ (by decide), Or.inl ⟨rfl, rfl, Or.inl rfl⟩⟩, rfl⟩
-  · exact ⟨by simp [exObjUser, Obj.ok, Obj.encOk, Obj.sizeOk], by simp [exObjUser, Obj.inRange]⟩
-  · exact Comp.KOk.ofKeyFree _ _ exStruct_ok.1 exStruct_ok.2.1 exStruct_ok.2.2
+  · exact ⟨by simp [lkExObjUser, Obj.ok, Obj.encOk, Obj.sizeOk], by simp [lkExObjUser, Obj.inRange]⟩
+  · exact Comp.KOk.ofKeyFree _ _ lkExStruct_ok.1 lkExStruct_ok.2.1 lkExStruct_ok.2.2
   · have ho : (⟨"y", none, none, none, true, 8, .uint32⟩ : Obj).ok := by simp [Obj.ok, Obj.encOk, Obj.sizeOk]
     have hr : (⟨"y", none, none, none, true, 8, .uint32⟩ : Obj).inRange (.int 0x77) := by simp [Obj.inRange]
     exact Comp.KOk.ofKeyFree _ _ (Comp.ofObjValue_ok _ _ ho hr) (Comp.ofObjValue_endOk _ _) (Comp.ofObjValue_keyFree _ _ ho hr)
 
-theorem exKeyItems_side (b : Bool) : Comps.namesOk (KItems.comps (exKeyItems b)) ∧ Comps.eopLast (KItems.comps (exKeyItems b)) ∧
-    KItems.refsOk exW [] [] (exKeyItems b) ∧ KItems.covered (exKeyItems b) ∧ KItems.apart (exKeyItems b) := by
+theorem lkExKeyItems_side (b : Bool) : Comps.namesOk (KItems.comps (lkExKeyItems b)) ∧ Comps.eopLast (KItems.comps (lkExKeyItems b)) ∧
+    KItems.refsOk lkExW [] [] (lkExKeyItems b) ∧ KItems.covered (lkExKeyItems b) ∧ KItems.apart (lkExKeyItems b) := by
   refine ⟨?_, ⟨rfl, rfl, rfl, rfl, rfl, rfl, trivial⟩, ?_, ?_, ?_⟩
-  · simp [Comps.namesOk, KItems.comps, exKeyItems, KItem.toComp, Comp.name, Param.name, Comp.ofObjConst, Obj.toConstParam,
-      Comp.ofObjValue, Obj.toParam, Obj.toKeyParam, Obj.toPLParam, PLUser.toParam, exKeyObj, exKeyObjN, exUser, exObjUser,
-      exStruct, Comp.ofValue]
-  · refine ⟨rfl, rfl, by simp [exUser, exKeyObj, exKeyObjN], rfl, by simp [exKeyObj, exKeyObjN], rfl,
-      Or.inl (by simp [exUser, exKeyObj, exKeyObjN]), trivial⟩
+  · simp [Comps.namesOk, KItems.comps, lkExKeyItems, KItem.toComp, Comp.name, Param.name, Comp.ofObjConst, Obj.toConstParam,
+      Comp.ofObjValue, Obj.toParam, Obj.toKeyParam, Obj.toPLParam, PLUser.toParam, lkExKeyObj, lkExKeyObjN, lkExUser, lkExObjUser,
+      lkExStruct, Comp.ofValue]
+  · refine ⟨rfl, rfl, by simp [lkExUser, lkExKeyObj, lkExKeyObjN], rfl, by simp [lkExKeyObj, lkExKeyObjN], rfl,
+      Or.inl (by simp [lkExUser, lkExKeyObj, lkExKeyObjN]), trivial⟩
   · intro o v hm
-    simp only [exKeyItems, List.mem_cons, List.mem_nil_iff, or_false, reduceCtorEq, false_or, KItem.key.injEq] at hm
+    simp only [lkExKeyItems, List.mem_cons, List.mem_nil_iff, or_false, reduceCtorEq, false_or, KItem.key.injEq] at hm
     rcases hm with ⟨rfl, _, _⟩ | ⟨_, _, h⟩
-    · exact ⟨.user exUser, by simp [exKeyItems], _, rfl⟩
+    · exact ⟨.user lkExUser, by simp [lkExKeyItems], _, rfl⟩
     · cases h
-  · simp [KItems.apart, exKeyItems, KItem.touches, exKeyObj, exKeyObjN]
+  · simp [KItems.apart, lkExKeyItems, KItem.touches, lkExKeyObj, lkExKeyObjN]
 
-theorem Except.eq_ok_of_toOption' {ε α : Type} {e : Except ε α} {a : α} (h : e.toOption = some a) : e = .ok a := by
+theorem Except.eq_ok_of_toOption_lk {ε α : Type} {e : Except ε α} {a : α} (h : e.toOption = some a) : e = .ok a := by
   cases e with
   | error x => cases h
   | ok b => simp only [Except.toOption, Option.some.injEq] at h; rw [h]
 
 /-- the theorem applies to the example, key `k` omitted … -/
-example : ∃ cursor, decodeMessage none (Comps.toParams (KItems.comps (exKeyItems false))) exKeyPdu true
-    = .ok (.dict (Comps.pair (KItems.comps (exKeyItems false))).val, cursor) :=
-  C01_roundtrip_lengthkey exW (exKeyItems false) (exKeyItems_ok false) (by decide) (exKeyItems_side false).1
-    (exKeyItems_side false).2.1 (exKeyItems_side false).2.2.2.2 (exKeyItems_side false).2.2.1 (exKeyItems_side false).2.2.2.1 none _
+example : ∃ cursor, decodeMessage none (Comps.toParams (KItems.comps (lkExKeyItems false))) lkExKeyPdu true
+    = .ok (.dict (Comps.pair (KItems.comps (lkExKeyItems false))).val, cursor) :=
+  C01_roundtrip_lengthkey lkExW (lkExKeyItems false) (lkExKeyItems_ok false) (by decide) (lkExKeyItems_side false).1
+    (lkExKeyItems_side false).2.1 (lkExKeyItems_side false).2.2.2.2 (lkExKeyItems_side false).2.2.1 (lkExKeyItems_side false).2.2.2.1 none _
     (fun h => by cases h)
-    (Except.eq_ok_of_toOption' (by decide +kernel))
+    (Except.eq_ok_of_toOption_lk (by decide +kernel))
 /-- … and key `k` specified -/
-example : ∃ cursor, decodeMessage none (Comps.toParams (KItems.comps (exKeyItems true))) exKeyPdu true
-    = .ok (.dict (Comps.pair (KItems.comps (exKeyItems true))).val, cursor) :=
-  C01_roundtrip_lengthkey exW (exKeyItems true) (exKeyItems_ok true) (by decide) (exKeyItems_side true).1
-    (exKeyItems_side true).2.1 (exKeyItems_side true).2.2.2.2 (exKeyItems_side true).2.2.1 (exKeyItems_side true).2.2.2.1 none _
+example : ∃ cursor, decodeMessage none (Comps.toParams (KItems.comps (lkExKeyItems true))) lkExKeyPdu true
+    = .ok (.dict (Comps.pair (KItems.comps (lkExKeyItems true))).val, cursor) :=
+  C01_roundtrip_lengthkey lkExW (lkExKeyItems true) (lkExKeyItems_ok true) (by decide) (lkExKeyItems_side true).1
+    (lkExKeyItems_side true).2.1 (lkExKeyItems_side true).2.2.2.2 (lkExKeyItems_side true).2.2.1 (lkExKeyItems_side true).2.2.2.1 none _
     (fun h => by cases h)
-    (Except.eq_ok_of_toOption' (by decide +kernel))
+    (Except.eq_ok_of_toOption_lk (by decide +kernel))
 
 /-! ### non-vacuity, nested: a structure with a LENGTH-KEY of its own as a parameter of a request with another one
     request = [ sid (0x2E, omitted);  k1 : LENGTH-KEY 8 bits, omitted;
                 st : STRUCTURE { k2 : LENGTH-KEY 8 bits, omitted;  data : PARAM-LENGTH-INFO-TYPE A_BYTEFIELD with key k2, 3 bytes };
                 d1 : PARAM-LENGTH-INFO-TYPE A_BYTEFIELD with key k1, 2 bytes;  y : 8 bits ]
     Both passes of `st` run inside the first pass of the request; the request's second pass then writes `k1`. -/
-def exK1 : Obj := ⟨"k1", none, none, none, true, 8, .uint32⟩
-def exK2 : Obj := ⟨"k2", none, none, none, true, 8, .uint32⟩
-def exInnerUser : PLUser := { name := "data", bytePos := none, key := "k2", bt := .bytefield, hl := true, v := .bytes [1, 2, 3], raw := [1, 2, 3] }
-def exOuterUser : PLUser := { name := "d1", bytePos := none, key := "k1", bt := .bytefield, hl := true, v := .bytes [0xAA, 0xBB], raw := [0xAA, 0xBB] }
-def exInner : List KItem := [.key exK2 24 false, .user exInnerUser]
-def exNestItems : List KItem :=
+def lkExK1 : Obj := ⟨"k1", none, none, none, true, 8, .uint32⟩
+def lkExK2 : Obj := ⟨"k2", none, none, none, true, 8, .uint32⟩
+def lkExInnerUser : PLUser := { name := "data", bytePos := none, key := "k2", bt := .bytefield, hl := true, v := .bytes [1, 2, 3], raw := [1, 2, 3] }
+def lkExOuterUser : PLUser := { name := "d1", bytePos := none, key := "k1", bt := .bytefield, hl := true, v := .bytes [0xAA, 0xBB], raw := [0xAA, 0xBB] }
+def lkExInner : List KItem := [.key lkExK2 24 false, .user lkExInnerUser]
+def lkExNestItems : List KItem :=
   [.comp (Comp.ofObjConst ⟨"sid", none, none, none, true, 8, .uint32⟩ (.int 0x2E) false) [],
-   .key exK1 16 false, .comp (Comp.kstruct "st" none exInner) (KItems.touched exInner), .user exOuterUser,
+   .key lkExK1 16 false, .comp (Comp.kstruct "st" none lkExInner) (KItems.touched lkExInner), .user lkExOuterUser,
    .comp (Comp.ofObjValue ⟨"y", none, none, none, true, 8, .uint32⟩ (.int 0x77)) []]
-def exNestW : String → Option Int := fun n => if n = "k1" then some 16 else if n = "k2" then some 24 else none
-def exNestPdu : Bytes := [0x2E, 0x10, 0x18, 0x01, 0x02, 0x03, 0xAA, 0xBB, 0x77]
+def lkExNestW : String → Option Int := fun n => if n = "k1" then some 16 else if n = "k2" then some 24 else none
+def lkExNestPdu : Bytes := [0x2E, 0x10, 0x18, 0x01, 0x02, 0x03, 0xAA, 0xBB, 0x77]
 
-example : Comps.values (KItems.comps exNestItems) =
+example : Comps.values (KItems.comps lkExNestItems) =
     [("st", .dict [("data", .atom (.bytes [1, 2, 3]))]), ("d1", .atom (.bytes [0xAA, 0xBB])), ("y", .atom (.int 0x77))] := rfl
-example : (Comps.pair (KItems.comps exNestItems)).val =
+example : (Comps.pair (KItems.comps lkExNestItems)).val =
     [("sid", .atom (.int 0x2E)), ("k1", .atom (.int 16)), ("st", .dict [("k2", .atom (.int 24)), ("data", .atom (.bytes [1, 2, 3]))]),
      ("d1", .atom (.bytes [0xAA, 0xBB])), ("y", .atom (.int 0x77))] := rfl
 /-- the PDU (odxtools produces the same bytes) -/
-example : (encodeMessage none (Comps.toParams (KItems.comps exNestItems))
-      (.dict (Comps.values (KItems.comps exNestItems))) none true).toOption = some (exNestPdu, 0) := by decide +kernel
+example : (encodeMessage none (Comps.toParams (KItems.comps lkExNestItems))
+      (.dict (Comps.values (KItems.comps lkExNestItems))) none true).toOption = some (lkExNestPdu, 0) := by decide +kernel
 
-theorem exInner_ok : (∀ it ∈ exInner, it.ok exNestW) ∧ Comps.eopLast (KItems.comps exInner) ∧ Comps.namesOk (KItems.comps exInner) ∧
-    KItems.apart exInner ∧ KItems.refsOk exNestW [] [] exInner ∧ KItems.covered exInner := by
-  refine ⟨?_, ⟨rfl, trivial⟩, ?_, ?_, ⟨rfl, by simp [exInnerUser, exK2], rfl, trivial⟩, ?_⟩
+theorem lkExInner_ok : (∀ it ∈ lkExInner, it.ok lkExNestW) ∧ Comps.eopLast (KItems.comps lkExInner) ∧ Comps.namesOk (KItems.comps lkExInner) ∧
+    KItems.apart lkExInner ∧ KItems.refsOk lkExNestW [] [] lkExInner ∧ KItems.covered lkExInner := by
+  refine ⟨?_, ⟨rfl, trivial⟩, ?_, ?_, ⟨rfl, by simp [lkExInnerUser, lkExK2], rfl, trivial⟩, ?_⟩
   · intro it hit
-    simp only [exInner, List.mem_cons, List.mem_nil_iff, or_false] at hit
+    simp only [lkExInner, List.mem_cons, List.mem_nil_iff, or_false] at hit
     rcases hit with rfl | rfl
-    · exact ⟨⟨rfl, by simp [exK2, Obj.ok, Obj.encOk, Obj.sizeOk]⟩, by simp [exK2, Obj.inRange]⟩
+    · exact ⟨⟨rfl, by simp [lkExK2, Obj.ok, Obj.encOk, Obj.sizeOk]⟩, by simp [lkExK2, Obj.inRange]⟩
     · exact ⟨⟨allBytes_of_all _ (by decide), Or.inl ⟨rfl, rfl, Or.inl rfl⟩⟩, rfl⟩
-  · simp [Comps.namesOk, KItems.comps, exInner, KItem.toComp, Comp.name, Param.name, Obj.toKeyParam, PLUser.toParam, exK2, exInnerUser]
-  · simp [KItems.apart, exInner, KItem.touches]
+  · simp [Comps.namesOk, KItems.comps, lkExInner, KItem.toComp, Comp.name, Param.name, Obj.toKeyParam, PLUser.toParam, lkExK2, lkExInnerUser]
+  · simp [KItems.apart, lkExInner, KItem.touches]
   · intro o v hm
-    simp only [exInner, List.mem_cons, List.mem_nil_iff, or_false, reduceCtorEq, KItem.key.injEq] at hm
+    simp only [lkExInner, List.mem_cons, List.mem_nil_iff, or_false, reduceCtorEq, KItem.key.injEq] at hm
     obtain ⟨rfl, _, _⟩ := hm
-    exact ⟨.user exInnerUser, by simp [exInner], _, rfl⟩
+    exact ⟨.user lkExInnerUser, by simp [lkExInner], _, rfl⟩
 
-theorem exNestItems_ok : ∀ it ∈ exNestItems, it.ok exNestW := by
+theorem lkExNestItems_ok : ∀ it ∈ lkExNestItems, it.ok lkExNestW := by
   intro it hit
-  simp only [exNestItems, List.mem_cons, List.mem_nil_iff, or_false] at hit
+  simp only [lkExNestItems, List.mem_cons, List.mem_nil_iff, or_false] at hit
   rcases hit with rfl | rfl | rfl | rfl | rfl
   · have ho : (⟨"sid", none, none, none, true, 8, .uint32⟩ : Obj).ok := by simp [Obj.ok, Obj.encOk, Obj.sizeOk]
     have hr : (⟨"sid", none, none, none, true, 8, .uint32⟩ : Obj).inRange (.int 0x2E) := by simp [Obj.inRange]
     exact Comp.KOk.ofKeyFree _ _ (Comp.ofObjConst_ok _ _ _ ho hr) (Comp.ofObjConst_endOk _ _ _) (Comp.ofObjConst_keyFree _ _ _ ho hr)
-  · exact ⟨⟨rfl, by simp [exK1, Obj.ok, Obj.encOk, Obj.sizeOk]⟩, by simp [exK1, Obj.inRange]⟩
-  · exact Comp.kstruct_kok "st" none exInner exInner_ok.1 exInner_ok.2.1 exInner_ok.2.2.1 exInner_ok.2.2.2.1 exInner_ok.2.2.2.2.1
-      exInner_ok.2.2.2.2.2
+  · exact ⟨⟨rfl, by simp [lkExK1, Obj.ok, Obj.encOk, Obj.sizeOk]⟩, by simp [lkExK1, Obj.inRange]⟩
+  · exact Comp.kstruct_kok "st" none lkExInner lkExInner_ok.1 lkExInner_ok.2.1 lkExInner_ok.2.2.1 lkExInner_ok.2.2.2.1 lkExInner_ok.2.2.2.2.1
+      lkExInner_ok.2.2.2.2.2
   · exact ⟨⟨allBytes_of_all _ (by decide), Or.inl ⟨rfl, rfl, Or.inl rfl⟩⟩, rfl⟩
   · have ho : (⟨"y", none, none, none, true, 8, .uint32⟩ : Obj).ok := by simp [Obj.ok, Obj.encOk, Obj.sizeOk]
     have hr : (⟨"y", none, none, none, true, 8, .uint32⟩ : Obj).inRange (.int 0x77) := by simp [Obj.inRange]
     exact Comp.KOk.ofKeyFree _ _ (Comp.ofObjValue_ok _ _ ho hr) (Comp.ofObjValue_endOk _ _) (Comp.ofObjValue_keyFree _ _ ho hr)
 
-theorem exNestItems_side : Comps.namesOk (KItems.comps exNestItems) ∧ Comps.eopLast (KItems.comps exNestItems) ∧
-    KItems.refsOk exNestW [] [] exNestItems ∧ KItems.covered exNestItems ∧ KItems.apart exNestItems := by
-  refine ⟨?_, ⟨rfl, rfl, rfl, rfl, trivial⟩, ⟨rfl, by simp [exOuterUser, exK1], rfl, trivial⟩, ?_, ?_⟩
-  · simp [Comps.namesOk, KItems.comps, exNestItems, KItem.toComp, Comp.name, Param.name, Comp.ofObjConst, Obj.toConstParam,
-      Comp.ofObjValue, Obj.toParam, Obj.toKeyParam, PLUser.toParam, exK1, exOuterUser, Comp.kstruct]
+theorem lkExNestItems_side : Comps.namesOk (KItems.comps lkExNestItems) ∧ Comps.eopLast (KItems.comps lkExNestItems) ∧
+    KItems.refsOk lkExNestW [] [] lkExNestItems ∧ KItems.covered lkExNestItems ∧ KItems.apart lkExNestItems := by
+  refine ⟨?_, ⟨rfl, rfl, rfl, rfl, trivial⟩, ⟨rfl, by simp [lkExOuterUser, lkExK1], rfl, trivial⟩, ?_, ?_⟩
+  · simp [Comps.namesOk, KItems.comps, lkExNestItems, KItem.toComp, Comp.name, Param.name, Comp.ofObjConst, Obj.toConstParam,
+      Comp.ofObjValue, Obj.toParam, Obj.toKeyParam, PLUser.toParam, lkExK1, lkExOuterUser, Comp.kstruct]
   · intro o v hm
-    simp only [exNestItems, List.mem_cons, List.mem_nil_iff, or_false, reduceCtorEq, false_or, KItem.key.injEq] at hm
+    simp only [lkExNestItems, List.mem_cons, List.mem_nil_iff, or_false, reduceCtorEq, false_or, KItem.key.injEq] at hm
     obtain ⟨rfl, _, _⟩ := hm
-    exact ⟨.user exOuterUser, by simp [exNestItems], _, rfl⟩
-  · simp [KItems.apart, exNestItems, KItem.touches, KItems.touched, exInner, exK1, exK2]
+    exact ⟨.user lkExOuterUser, by simp [lkExNestItems], _, rfl⟩
+  · simp [KItems.apart, lkExNestItems, KItem.touches, KItems.touched, lkExInner, lkExK1, lkExK2]
 
 /-- the theorem applies to the nested example -/
-example : ∃ cursor, decodeMessage none (Comps.toParams (KItems.comps exNestItems)) exNestPdu true
-    = .ok (.dict (Comps.pair (KItems.comps exNestItems)).val, cursor) :=
-  C01_roundtrip_lengthkey exNestW exNestItems exNestItems_ok (by decide) exNestItems_side.1 exNestItems_side.2.1
-    exNestItems_side.2.2.2.2 exNestItems_side.2.2.1 exNestItems_side.2.2.2.1 none _ (fun h => by cases h)
-    (Except.eq_ok_of_toOption' (by decide +kernel))
+example : ∃ cursor, decodeMessage none (Comps.toParams (KItems.comps lkExNestItems)) lkExNestPdu true
+    = .ok (.dict (Comps.pair (KItems.comps lkExNestItems)).val, cursor) :=
+  C01_roundtrip_lengthkey lkExNestW lkExNestItems lkExNestItems_ok (by decide) lkExNestItems_side.1 lkExNestItems_side.2.1
+    lkExNestItems_side.2.2.2.2 lkExNestItems_side.2.2.1 lkExNestItems_side.2.2.2.1 none _ (fun h => by cases h)
+    (Except.eq_ok_of_toOption_lk (by decide +kernel))
 
 end OdxVerif.Codec
